@@ -2,7 +2,7 @@
     MergeTotal / MergeTransfer, and the concrete non-vacuity instances. *)
 From Coq Require Import Permutation Sorted.
 From CJ Require Import Base Dbl Tree CompareDefs CompareProofs MergeDefs Rfc7396 MergeLemmas MergeSort MergeApply MergePerm
-  MergeGen MergeGenerate MergeTotal MergeTransfer MergeLibrary MergeDocEq.
+  MergeGen MergeGenerate MergeTotal MergeTransfer MergeLibrary MergeDocEq MergeComplete.
 Local Open Scope Z_scope.
 
 (** * application *)
@@ -64,6 +64,20 @@ Proof.
   destruct (generate_entry_total true from to (m7396_doc_gd _ Df) (m7396_doc_gd _ Dt)) as [p [f' [t' E]]].
   destruct (library_roundtrip from to p (Some f') (Some t') Df Dt Hn Hdf Hdt E) as [d [Hdup Hr]].
   exists p, f', t', d. split; [exact E|]. split; [exact Hdup|exact Hr].
+Qed.
+
+(* for two objects: no patch is generated (NULL) exactly when the documents are equal *)
+Theorem c18_no_patch_iff_equal : forall from to p from' to',
+  m7396_doc from = true -> m7396_doc to = true -> no_null_member to = true -> m7396_depth_ok to = true ->
+  is_object from = true -> is_object to = true ->
+  cJSONUtils_GenerateMergePatchCaseSensitive (Some from) (Some to) = Ok (p, from', to') ->
+  (p = None <-> doc_eq from to = true).
+Proof.
+  intros from to p from' to' Df Dt Hn Hd Of Ot H. split.
+  - intros ->. apply (generate_roundtrip from to None from' to' Df Dt Hn Hd H).
+  - intro He. unfold cJSONUtils_GenerateMergePatchCaseSensitive, mp_GenerateMergePatch_gen in H.
+    destruct (mp_generate_merge_patch (node_depth to) true from to) as [[[p0 f'] t']| |] eqn:E; cbn [bind] in H; try discriminate.
+    injection H as <- _ _. apply (generate_none_of_equal _ _ _ _ _ _ (m7396_doc_gd _ Df) (m7396_doc_gd _ Dt) Of He E).
 Qed.
 
 (* doc_eq decides its declarative reading *)
